@@ -687,10 +687,10 @@ class HooksPlugin(Plugin):
     def finish(self, mon, completed):
         specs = mon.ext.get("probe_specs", {})
         classes = {"Market": Market, "IndexMarket": IndexMarket}
+        configured = {e for s_ in mon.sessions_cfg for e in (s_.get("events") or [])}
         for name, spec in specs.items():
-            if name not in mon.sim.name2event and not any(e.name == name for e in mon.sim.events):
-                # the event registered no hook at all
-                pass
+            if name not in configured:
+                continue  # a probe spec without a configured event (e.g. after minimisation)
             per: Dict[Tuple[str, bool], Counter] = {}
             for h in spec.get("hooks", []):
                 key = (h["kind"], bool(h["before"]))
